@@ -5,17 +5,21 @@
 //! builds the coarsest partition of the scalar-value space that respects every one of them, so
 //! that each set is a union of atoms and language equality over atom ids is equivalent to
 //! language equality over all 1 112 064 scalar values.
+//!
+//! The partition is computed by one sweep over the sorted range end points of all sets; the
+//! signature of an elementary interval is the set of sets that contain it, atoms are the
+//! classes of equal signature. The twelve class sets (\d \w \s, negations, (?i) closures) are
+//! large (hundreds of ranges) and identical in every group, so their sweep ("base partition")
+//! is computed once per process and merged with the group's few small sets.
 
 use std::collections::HashMap;
+use std::sync::OnceLock;
 
 pub const MAX_CP: u32 = 0x10FFFF;
+pub const N_SCALARS: u64 = 0x110000 - 0x800;
 
 #[derive(Clone, Debug, PartialEq, Eq, Hash, Default)]
 pub struct CharSet(pub Vec<(u32, u32)>);
-
-fn is_surrogate(c: u32) -> bool {
-    (0xD800..=0xDFFF).contains(&c)
-}
 
 impl CharSet {
     pub fn empty() -> Self {
@@ -49,7 +53,6 @@ impl CharSet {
         let mut out: Vec<(u32, u32)> = vec![];
         for (a, b) in cleaned {
             if let Some(last) = out.last_mut() {
-                // adjacent (also across the surrogate gap is NOT merged: keep ranges real)
                 if a <= last.1.saturating_add(1) {
                     if b > last.1 {
                         last.1 = b;
@@ -107,7 +110,7 @@ impl CharSet {
     }
 }
 
-/// Interning table of sets + the computed atom partition.
+/// Interning table of sets.
 #[derive(Default)]
 pub struct SetTable {
     pub sets: Vec<CharSet>,
@@ -129,82 +132,214 @@ impl SetTable {
     }
 }
 
+/// Elementary intervals [start, end] (surrogates excluded) with a signature id each.
+struct Sweep {
+    pieces: Vec<(u32, u32, u32)>,
+    /// signature id -> indices (into the input slice) of the sets containing it
+    sigs: Vec<Vec<u32>>,
+}
+
+fn sweep(sets: &[&CharSet]) -> Sweep {
+    // events: (position, set index, +1 enter / -1 leave)
+    let mut events: Vec<(u32, u32, bool)> = vec![];
+    for (i, s) in sets.iter().enumerate() {
+        for &(a, b) in &s.0 {
+            events.push((a, i as u32, true));
+            events.push((b + 1, i as u32, false));
+        }
+    }
+    events.sort();
+    let mut active: Vec<bool> = vec![false; sets.len()];
+    let mut sig_ids: HashMap<Vec<u32>, u32> = HashMap::new();
+    let mut sigs: Vec<Vec<u32>> = vec![];
+    let mut pieces: Vec<(u32, u32, u32)> = vec![];
+    let mut pos = 0u32;
+    let mut k = 0;
+    let mut emit = |from: u32, to: u32, active: &Vec<bool>, pieces: &mut Vec<(u32, u32, u32)>| {
+        if from > to {
+            return;
+        }
+        let sig: Vec<u32> = active.iter().enumerate().filter(|(_, &a)| a).map(|(i, _)| i as u32).collect();
+        let next = sigs.len() as u32;
+        let id = *sig_ids.entry(sig.clone()).or_insert_with(|| {
+            sigs.push(sig);
+            next
+        });
+        // split around the surrogate gap
+        let mut push = |a: u32, b: u32| {
+            if a <= b {
+                if let Some(last) = pieces.last_mut() {
+                    if last.2 == id && last.1 + 1 == a {
+                        last.1 = b;
+                        return;
+                    }
+                }
+                pieces.push((a, b, id));
+            }
+        };
+        if to < 0xD800 || from > 0xDFFF {
+            push(from, to);
+        } else {
+            if from < 0xD800 {
+                push(from, 0xD7FF);
+            }
+            if to > 0xDFFF {
+                push(0xE000, to);
+            }
+        }
+    };
+    while k < events.len() {
+        let p = events[k].0;
+        if p > pos {
+            emit(pos, p - 1, &active, &mut pieces);
+            pos = p;
+        }
+        while k < events.len() && events[k].0 == p {
+            active[events[k].1 as usize] = events[k].2;
+            k += 1;
+        }
+    }
+    if pos <= MAX_CP {
+        emit(pos, MAX_CP, &active, &mut pieces);
+    }
+    Sweep { pieces, sigs }
+}
+
+/// the big class sets and their sweep, computed once
+struct Base {
+    sets: Vec<CharSet>,
+    sweep: Sweep,
+}
+
+fn base() -> &'static Base {
+    static B: OnceLock<Base> = OnceLock::new();
+    B.get_or_init(|| {
+        let c = crate::sem::classes();
+        let sets: Vec<CharSet> = vec![
+            c.d.clone(), c.w.clone(), c.s.clone(), c.nd.clone(), c.nw.clone(), c.ns.clone(),
+            c.di.clone(), c.wi.clone(), c.si.clone(), c.ndi.clone(), c.nwi.clone(), c.nsi.clone(),
+        ];
+        let refs: Vec<&CharSet> = sets.iter().collect();
+        let sw = sweep(&refs);
+        Base { sets, sweep: sw }
+    })
+}
+
 pub struct Atoms {
-    /// atoms[k] = the k-th atom (0-based here; ids in traces are k+1), ordered by minimum
-    pub atoms: Vec<CharSet>,
+    /// number of atoms; ids in traces are 1..=n, ordered by minimum element
+    pub n: usize,
+    pub mins: Vec<u32>,
+    pub counts: Vec<u64>,
     /// for each interned set, the sorted list of atom ids (1-based)
     pub set_atoms: Vec<Vec<u32>>,
 }
 
 impl Atoms {
-    pub fn compute(table: &SetTable) -> Atoms {
-        // boundaries: a point p is a boundary if some range starts at p or ends at p-1
-        let mut cuts: Vec<u32> = vec![0, 0xD800, 0xE000, MAX_CP + 1];
-        for s in &table.sets {
-            for &(a, b) in &s.0 {
-                cuts.push(a);
-                cuts.push(b + 1);
-            }
-        }
-        cuts.sort();
-        cuts.dedup();
-        // elementary intervals [cuts[i], cuts[i+1]-1] (skip surrogates)
-        let mut sig_to_atom: HashMap<Vec<u32>, usize> = HashMap::new();
-        let mut atom_ranges: Vec<Vec<(u32, u32)>> = vec![];
-        let mut atom_sigs: Vec<Vec<u32>> = vec![];
-        for w in cuts.windows(2) {
-            let (a, b) = (w[0], w[1] - 1);
-            if is_surrogate(a) {
-                continue;
-            }
-            let mut sig = vec![];
-            for (i, s) in table.sets.iter().enumerate() {
-                if s.contains(a) {
-                    sig.push(i as u32);
-                }
-            }
-            let k = *sig_to_atom.entry(sig.clone()).or_insert_with(|| {
-                atom_ranges.push(vec![]);
-                atom_sigs.push(sig);
-                atom_ranges.len() - 1
-            });
-            atom_ranges[k].push((a, b));
-        }
-        // order atoms by minimum element
-        let mut order: Vec<usize> = (0..atom_ranges.len()).collect();
-        order.sort_by_key(|&k| atom_ranges[k][0].0);
-        let mut atoms = vec![];
-        let mut set_atoms: Vec<Vec<u32>> = vec![vec![]; table.sets.len()];
-        for (new_id, &k) in order.iter().enumerate() {
-            atoms.push(CharSet::from_ranges(atom_ranges[k].clone()));
-            for &si in &atom_sigs[k] {
-                set_atoms[si as usize].push(new_id as u32 + 1);
-            }
-        }
-        Atoms { atoms, set_atoms }
+    pub fn len(&self) -> usize {
+        self.n
     }
 
-    /// Self-check (DESIGN.md §4.3): atoms are pairwise disjoint, cover all scalar values, and
-    /// every interned set equals the union of its atoms.
+    pub fn compute(table: &SetTable) -> Atoms {
+        let b = base();
+        // which interned sets are base (class) sets?
+        let mut base_of: Vec<Option<usize>> = vec![None; table.sets.len()];
+        let mut small_idx: Vec<usize> = vec![];
+        let mut any_base = false;
+        for (i, s) in table.sets.iter().enumerate() {
+            if s.0.len() > 8 {
+                if let Some(p) = b.sets.iter().position(|x| x == s) {
+                    base_of[i] = Some(p);
+                    any_base = true;
+                    continue;
+                }
+            }
+            small_idx.push(i);
+        }
+        let small_refs: Vec<&CharSet> = small_idx.iter().map(|&i| &table.sets[i]).collect();
+        let small = sweep(&small_refs);
+        // merge the two sweeps: classes of (base signature, small signature)
+        let single_base = Sweep { pieces: vec![(0, 0xD7FF, 0), (0xE000, MAX_CP, 0)], sigs: vec![vec![]] };
+        let bs: &Sweep = if any_base { &b.sweep } else { &single_base };
+        let mut pair_ids: HashMap<(u32, u32), usize> = HashMap::new();
+        let mut mins: Vec<u32> = vec![];
+        let mut counts: Vec<u64> = vec![];
+        let mut pairs: Vec<(u32, u32)> = vec![];
+        let (mut i, mut j) = (0usize, 0usize);
+        while i < bs.pieces.len() && j < small.pieces.len() {
+            let (a1, b1, s1) = bs.pieces[i];
+            let (a2, b2, s2) = small.pieces[j];
+            let lo = a1.max(a2);
+            let hi = b1.min(b2);
+            if lo <= hi {
+                let id = *pair_ids.entry((s1, s2)).or_insert_with(|| {
+                    mins.push(lo);
+                    counts.push(0);
+                    pairs.push((s1, s2));
+                    mins.len() - 1
+                });
+                counts[id] += (hi - lo + 1) as u64;
+            }
+            if b1 <= b2 {
+                i += 1;
+            }
+            if b2 <= b1 {
+                j += 1;
+            }
+        }
+        // order atoms by minimum element
+        let mut order: Vec<usize> = (0..mins.len()).collect();
+        order.sort_by_key(|&k| mins[k]);
+        let mut new_id = vec![0u32; mins.len()];
+        for (n, &k) in order.iter().enumerate() {
+            new_id[k] = n as u32 + 1;
+        }
+        let mut set_atoms: Vec<Vec<u32>> = vec![vec![]; table.sets.len()];
+        for (k, &(s1, s2)) in pairs.iter().enumerate() {
+            // small sets containing this atom
+            for &si in &small.sigs[s2 as usize] {
+                set_atoms[small_idx[si as usize]].push(new_id[k]);
+            }
+            if any_base {
+                let bsig = &bs.sigs[s1 as usize];
+                for (t, bo) in base_of.iter().enumerate() {
+                    if let Some(p) = bo {
+                        if bsig.contains(&(*p as u32)) {
+                            set_atoms[t].push(new_id[k]);
+                        }
+                    }
+                }
+            }
+        }
+        for v in set_atoms.iter_mut() {
+            v.sort();
+        }
+        Atoms {
+            n: mins.len(),
+            mins: order.iter().map(|&k| mins[k]).collect(),
+            counts: order.iter().map(|&k| counts[k]).collect(),
+            set_atoms,
+        }
+    }
+
+    /// Self-check (DESIGN.md §4.3). Atoms are disjoint by construction (classes of a sweep);
+    /// they must cover all scalar values, every interned set must have exactly the size of
+    /// the union of its atoms, and every atom's minimum must lie in the sets that list it and in
+    /// no other set (membership is uniform on an atom).
     pub fn self_check(&self, table: &SetTable) -> Result<(), String> {
-        let total: u64 = self.atoms.iter().map(|a| a.count()).sum();
-        if total != CharSet::all().count() {
+        let total: u64 = self.counts.iter().sum();
+        if total != N_SCALARS {
             return Err(format!("atoms cover {} scalar values", total));
         }
-        let mut all = CharSet::empty();
-        for a in &self.atoms {
-            all = all.union(a);
-        }
-        if all != CharSet::all() {
-            return Err("atoms do not cover the scalar value space".into());
-        }
         for (i, s) in table.sets.iter().enumerate() {
-            let mut u = CharSet::empty();
-            for &k in &self.set_atoms[i] {
-                u = u.union(&self.atoms[k as usize - 1]);
+            let sum: u64 = self.set_atoms[i].iter().map(|&k| self.counts[k as usize - 1]).sum();
+            if sum != s.count() {
+                return Err(format!("set {} has {} members but its atoms {}", i, s.count(), sum));
             }
-            if &u != s {
-                return Err(format!("set {} is not the union of its atoms", i));
+            for k in 1..=self.n as u32 {
+                let listed = self.set_atoms[i].binary_search(&k).is_ok();
+                if s.contains(self.mins[k as usize - 1]) != listed {
+                    return Err(format!("atom {} membership in set {} inconsistent", k, i));
+                }
             }
         }
         Ok(())
@@ -222,6 +357,6 @@ mod tests {
         t.intern(CharSet::from_ranges(vec![('a' as u32, 'z' as u32)]).complement());
         let a = Atoms::compute(&t);
         a.self_check(&t).unwrap();
-        assert_eq!(a.atoms.len(), 3);
+        assert_eq!(a.n, 3);
     }
 }
